@@ -12,7 +12,7 @@ use std::fmt::Write as _;
 use std::path::{Path, PathBuf};
 use std::process::Command;
 
-pub const RULE: &str = "Domain: generated programs. ok-crate: N = 1200 | 5000 invocations of langid! lang! script! region! variant! locale! (single literal) and langids! langid_slice! locales! (2-4 literals, every fifth list 8-40 literals, with and without trailing comma; single literals are followed by their one-character neighbours) on literals the reference model classifies as well-formed, spelled as plain, raw (r\"..\", r#\"..\"#) or escaped (\\x.., \\u{..}) string literals (proptest grammar strategies with random case / separator masks, und, every extension shape and order incl. tfields followed by -u-/-x-, duplicated and unsorted variants, boundary lengths), invoked by path, by bare imported name, inside a closure passed to a generic function, or - for the forms the crate documents as const-usable - as the initialiser of a const / static item, each compared at run time with parsing the same literal (==, to_string, hash, per element for lists) inside catch_unwind. bad-crate: M = 800 | 3000 invocations, one per function, on literals the reference puts in must-reject (near-miss mutations, wrong lengths / character classes, foreign and repeated singletons, non-ASCII look-alikes, the empty string, well-formed literals padded with ASCII / Unicode whitespace or control characters or with one letter replaced by a character that case-folds to ASCII; either-zone literals are never used), built with cargo check --message-format=json; list macros get exactly one ill-formed element. Oracle: the ok-crate compiles (a compile error is mapped through the expansion chain to its invocation, reported, the invocation removed and the crate rebuilt) and every comparison is equal with no run-time panic; in the bad-crate the set of invocations carrying an error equals the set of all invocations. Non-trivial (ok) = literal with an extension, non-canonical case or separator, und, >= 2 variants or a list macro; every bad invocation counts. Distinct = hash set over (macro, literals).";
+pub const RULE: &str = "Domain: generated programs. ok-crate: N = 1200 | 5000 invocations of langid! lang! script! region! variant! locale! (single literal) and langids! langid_slice! locales! (2-4 literals, every fifth list 8-40 literals, one list of 130-300 literals per list macro, with and without trailing comma; single literals are followed by their one-character neighbours) on literals the reference model classifies as well-formed, spelled as plain, raw (r\"..\", r#\"..\"#) or escaped (\\x.., \\u{..}) string literals (proptest grammar strategies with random case / separator masks, und, every extension shape and order incl. tfields followed by -u-/-x-, duplicated and unsorted variants, boundary lengths), invoked by path, by bare imported name, inside a closure passed to a generic function, or - for the forms the crate documents as const-usable - as the initialiser of a const / static item, each compared at run time with parsing the same literal (==, to_string, hash, per element for lists) inside catch_unwind. bad-crate: M = 800 | 3000 invocations, one per function, on literals the reference puts in must-reject (near-miss mutations, wrong lengths / character classes, foreign and repeated singletons, non-ASCII look-alikes, the empty string, well-formed literals padded with ASCII / Unicode whitespace or control characters or with one letter replaced by a character that case-folds to ASCII; either-zone literals are never used), built with cargo check --message-format=json; list macros get exactly one ill-formed element. Oracle: the ok-crate compiles (a compile error is mapped through the expansion chain to its invocation, reported, the invocation removed and the crate rebuilt) and every comparison is equal with no run-time panic; in the bad-crate the set of invocations carrying an error equals the set of all invocations. Non-trivial (ok) = literal with an extension, non-canonical case or separator, und, >= 2 variants or a list macro; every bad invocation counts. Distinct = hash set over (macro, literals).";
 
 #[derive(Clone, Debug, PartialEq, Eq, Hash)]
 pub struct MCase {
@@ -101,7 +101,14 @@ fn spell(l: &str) -> String {
 /// pinned expansion calls the non-const `Language::default()` for it).
 /// A function of the case itself (not of its index), so that a replay crate uses the same form.
 fn ctx_of(c: &MCase) -> u64 {
-    let k = hash_str(&format!("{}|{:?}", c.mac, c.lits)) % 7;
+    let k = hash_str(&format!("{}|{:?}", c.mac, c.lits)) % 8;
+    if k == 7 {
+        // 7 = inside a module of its own that declares types named like std / crate items which the
+        // pinned expansions never mention by bare name (Vec, String, Result, Default, Clone, Into,
+        // From, ToString, Iterator, Locale, LanguageIdentifier, Language); Some / None / Box, which
+        // the pinned proc macros do emit bare, are left alone. Well-formed literals only.
+        return if c.mac == "langid_slice" || !c.expect_ok { 1 } else { 7 };
+    }
     if k == 6 {
         // 6 = through a macro_rules wrapper of the generated crate that expands to TWO invocations
         // at one outer call site (a decoy first, then the literal under test): single-literal macros on
@@ -154,6 +161,14 @@ fn context(c: &MCase) -> (String, String, String) {
         3 if c.mac != "langid_slice" => (String::new(), "pass((|| (".into(), ",)))().0".into()),
         4 => (String::new(), format!("{{ const M: {ty} = ("), "); M }".into()),
         5 => (String::new(), format!("{{ static M: {ty} = ("), "); M.clone() }".into()),
+        7 => {
+            let ret = if is_list(&c.mac) { format!("::std::vec::Vec<{ty}>") } else { ty.clone() };
+            (
+                String::new(),
+                format!("{{ mod scope {{ #![allow(dead_code, non_camel_case_types)] pub struct Vec; pub struct String; pub struct Result; pub struct Default; pub struct Clone; pub struct Into; pub struct From; pub struct ToString; pub struct Iterator; pub struct Locale; pub struct LanguageIdentifier; pub struct Language; pub fn get() -> {ret} {{ ("),
+                ") } } scope::get() }".into(),
+            )
+        }
         _ => (String::new(), String::new(), String::new()),
     }
 }
@@ -757,6 +772,19 @@ fn collect(cfg: &Cfg, good: bool, n: usize, phase: &str) -> Vec<MCase> {
             }
         }
     }
+    if good {
+        // one very long list per list macro (130-300 literals): expansions that count or recurse per
+        // element meet the default recursion limit of 128 there
+        for (j, lm) in ["langids", "langid_slice", "locales"].iter().enumerate() {
+            let pool = if *lm == "locales" { &pool_locale } else { &pool_langid };
+            let k = 130 + (mix(cfg.seed ^ ph ^ j as u64) % 171) as usize;
+            let lits: Vec<String> = (0..k).map(|i| pool[(mix(i as u64 ^ ph ^ (j as u64) << 20) % pool.len() as u64) as usize].clone()).collect();
+            let c = MCase { mac: lm.to_string(), lits, trailing_comma: j % 2 == 0, expect_ok: true };
+            if seen.insert(c.clone()) {
+                out.push(c);
+            }
+        }
+    }
     out
 }
 
@@ -783,7 +811,7 @@ fn judge(cases: &[MCase], outcomes: &[Option<Outcome>], st: &mut Stats) {
             continue;
         };
         st.class(&format!("{}:{}", if c.expect_ok { "well-formed" } else { "ill-formed" }, c.mac));
-        st.class(["form: by path", "form: by path", "form: imported, bare name", "form: inside a closure passed to a generic function", "form: initialiser of a const item", "form: initialiser of a static item", "form: through a macro_rules wrapper that holds two invocations"][ctx_of(c) as usize]);
+        st.class(["form: by path", "form: by path", "form: imported, bare name", "form: inside a closure passed to a generic function", "form: initialiser of a const item", "form: initialiser of a static item", "form: through a macro_rules wrapper that holds two invocations", "form: inside a module that declares its own Vec / String / Result / Default / ... types"][ctx_of(c) as usize]);
         if c.expect_ok {
             if nontrivial_ok(c) {
                 st.nontrivial(hash_str(&case().to_string()), case);
